@@ -11,6 +11,7 @@ processes) belongs to the end-to-end rig."""
 import json, os
 import vlib
 from vlib import coq_list, coq_bool
+from props import retry_rig as rig
 
 PROP = "C07"
 IMPORTS = ["Base.Str", "Model.Backoff", "Proofs.Backoff"]
@@ -25,6 +26,13 @@ Definition enc_pol (p : policy) : list N :=
                             (match m with Some x => x | None => 0 end)]
   end.
 Definition b2n (b : bool) : N := if b then 1 else 0.
+Definition end_code (e : loop_end) : N :=
+  match e with Finished => 0 | Refused => 1 | Panicked => 2 | OutOfFuel => 3 end.
+Definition enc_run (x : list (attempt_rec bool) * loop_end) :=
+  (map at_no (fst x), map at_delay_before (fst x), map (fun a => b2n (at_result a)) (fst x),
+   map (fun a => jitter_range (at_delay_before a)) (fst x), end_code (snd x)).
+Definition pattern (l : list bool) (dflt : bool) : N -> bool :=
+  fun k => nth (N.to_nat k - 1) l dflt.
 """
 
 NS, US, MS, S = 1, 10 ** 3, 10 ** 6, 10 ** 9
@@ -187,6 +195,155 @@ def impl_pol(v):
                 max_delay=None if mx is None else int(mx))
 
 
+
+# ---------------------------------------------------------------- the attempt loop on real processes
+
+def rig_policy(r, small=True):
+    kind = r.choice(["fixed", "fixed", "exp"])
+    c = r.choice([0, 1, 2, 3, 4])
+    if kind == "fixed":
+        d = r.choice([0, 0, 5 * MS, 20 * MS])
+        return dict(kind="fixed", count=c, delay=d, jitter=bool(d) and r.random() < 0.3, max_delay=None)
+    d = r.choice([5 * MS, 10 * MS])
+    return dict(kind="exp", count=max(c, 1), delay=d, jitter=r.random() < 0.3,
+                max_delay=r.choice([None, d, 15 * MS, 20 * MS, 25 * MS]))
+
+
+def rig_scenario(r, idx):
+    """~10 tests with their own / the profile's / a forced policy and a pass-fail pattern each"""
+    profile = rig_policy(r) if r.random() < 0.7 else None
+    force = None
+    if r.random() < 0.35:
+        n = r.choice([0, 1, 2, 3])
+        force = dict(kind="fixed", count=n, delay=0, jitter=False, max_delay=None) if r.random() < 0.7 \
+            else rig_policy(r)
+    tests = {}
+    for t in range(r.choice([6, 8, 10])):
+        pol = rig_policy(r) if r.random() < 0.6 else None
+        eff = force or pol or profile or dict(kind="fixed", count=0, delay=0, jitter=False, max_delay=None)
+        n = eff["count"] + 2
+        shape = r.choice(["never", "first", "at", "random"])
+        if shape == "never":
+            pat = [False] * n
+        elif shape == "first":
+            pat = [True] * n
+        elif shape == "at":
+            j = r.randint(1, n)
+            pat = [k + 1 >= j for k in range(n)]
+        else:
+            pat = [r.random() < 0.4 for _ in range(n)]
+        dflt = r.random() < 0.5
+        code = lambda ok: 0 if ok else r.choice([1, 2, 101, 255])
+        tests[f"t{idx}_{t}"] = dict(
+            policy=pol, pattern=pat, dflt=dflt,
+            default=dict(kind="exit", code=code(dflt)),
+            attempts={k + 1: dict(kind="exit", code=code(ok)) for k, ok in enumerate(pat)})
+    return dict(profile_retries=profile, force=force, bins={"ba": tests}, leak_timeout_ms=100,
+                threads=r.choice([1, 4, 8]))
+
+
+def doc_attempts(eff, pat, dflt):
+    """documented attempt count: min(first passing attempt, retries + 1)"""
+    total = eff["count"] + 1
+    for k in range(1, total + 1):
+        ok = pat[k - 1] if k - 1 < len(pat) else dflt
+        if ok:
+            return k
+    return total
+
+
+def check_attempt_loop(chk, binary, r, thorough):
+    nsc = 24 if thorough else 6
+    scenarios = [rig_scenario(r, i) for i in range(nsc)]
+    cases = [rig.prepare(f"c07_{i}", sc) for i, sc in enumerate(scenarios)]
+    results = [vlib.run_impl(binary, "backoff", [c], shards=1)[0] for c in cases]
+    none = dict(kind="fixed", count=0, delay=0, jitter=False, max_delay=None)
+    exprs, index = [], []
+    for si, sc in enumerate(scenarios):
+        for t, spec in sc["bins"]["ba"].items():
+            settings = spec["policy"] or sc["profile_retries"] or none
+            force = "None" if sc["force"] is None else f"(Some {coq_policy(sc['force'])})"
+            exprs.append(f"enc_run (run_test_instance bool (fun b => b) {force} {coq_policy(settings)} "
+                         f"(pattern {coq_list([coq_bool(b) for b in spec['pattern']])} {coq_bool(spec['dflt'])}) "
+                         f"(fun _ => true) (fun _ => no_jitter_sample))")
+            index.append((si, t))
+    model = dict(zip(index, vlib.coq_eval("c07l", IMPORTS, exprs, PRELUDE)))
+    problem = None
+    mismatch = None
+    for si, (sc, case, res) in enumerate(zip(scenarios, cases, results)):
+        if "events" not in res or "error" in res:
+            problem = problem or ("counterexample", dict(input=sc, impl=res, clause="the run failed"))
+            continue
+        log = rig.read_log(case, "ba")
+        per = rig.per_test(res)
+        for t, spec in sc["bins"]["ba"].items():
+            chk.count("attempt_loop_cases")
+            eff = sc["force"] or spec["policy"] or sc["profile_retries"] or none
+            chk.count("loop_policy_" + ("forced" if sc["force"] else "override" if spec["policy"] else
+                                        "profile" if sc["profile_retries"] else "default"))
+            want_n = doc_attempts(eff, spec["pattern"], spec["dflt"])
+            chk.count(f"loop_attempts={min(want_n, 5)}")
+            base = doc_delays(eff)
+            inv = log.get(t, [])
+            rec = per.get(("ba", t))
+            fin = rec and rec["finished"]
+            ctx = dict(test=t, effective_policy=eff, pattern=spec["pattern"], default=spec["dflt"],
+                       forced=sc["force"] is not None, invocations=[k for k, _, _ in inv],
+                       reported=fin and fin["attempts"])
+            # -- oracle on the ground-truth log and on what nextest reported
+            why = None
+            if [k for k, _, _ in inv] != list(range(1, want_n + 1)):
+                why = (f"the test process was started for attempts {[k for k, _, _ in inv]}; documented: "
+                       f"1..{want_n} (until an attempt passes or retries+1 attempts were made)")
+            elif fin is None or [a["attempt"] for a in fin["attempts"]] != list(range(1, want_n + 1)):
+                why = "nextest did not report exactly one finished test with attempts 1..n"
+            else:
+                for k in range(1, want_n):
+                    d = base[k - 1]
+                    lo = (d + 1) // 2 if eff["jitter"] else d
+                    rep = int(fin["attempts"][k]["delay_before_start"])
+                    announced = int(rec["will_retry"][k - 1]["delay"]) if k - 1 < len(rec["will_retry"]) else None
+                    gap = inv[k][1] - (inv[k - 1][2] or inv[k - 1][1])
+                    if not (lo <= rep <= d) or announced != rep:
+                        why = (f"delay before attempt {k + 1}: reported {rep} ns (announced {announced}), documented "
+                               f"{'between %d and ' % lo if eff['jitter'] else ''}{d} ns")
+                    elif gap < rep - 2 * MS:
+                        why = (f"attempt {k + 1} started {gap} ns after attempt {k} ended, sooner than the "
+                               f"delay of {rep} ns")
+                if why is None and any(a["total"] != eff["count"] + 1 for a in fin["attempts"]):
+                    why = f"total_attempts is not retries + 1 = {eff['count'] + 1}"
+                if why is None and int(fin["attempts"][0]["delay_before_start"]) != 0:
+                    why = "the first attempt has a non-zero delay"
+            if why and problem is None:
+                problem = ("counterexample", dict(input=dict(scenario=sc["profile_retries"], force=sc["force"], **ctx),
+                                                  clause=why))
+            # -- correspondence with the model
+            m_no, m_delay, m_res, m_rng, m_end = model[(si, t)]
+            if fin is not None and mismatch is None:
+                got_no = [a["attempt"] for a in fin["attempts"]]
+                got_res = [int(a["result"][0] in (0, 1)) for a in fin["attempts"]]
+                got_delay = [int(a["delay_before_start"]) for a in fin["attempts"]]
+                ok = got_no == m_no and got_res == m_res and m_end == 0 and len(got_delay) == len(m_delay) and \
+                    all((lo <= x <= hi) if eff["jitter"] else x == d
+                        for x, d, (lo, hi) in zip(got_delay, m_delay, m_rng))
+                if not ok:
+                    mismatch = dict(input=ctx, model=dict(attempts=m_no, delays=m_delay, results=m_res, end=m_end))
+    if problem:
+        chk.violation(problem[0], "oracle:attempt-loop", problem[1])
+    elif mismatch:
+        chk.violation("broken-obligation", "corr:attempt-loop", mismatch, no_input=True)
+    sc0 = scenarios[0]
+    t0 = next(iter(sc0["bins"]["ba"]))
+    chk.sample(dict(attempt_loop_test=dict(policy=sc0["bins"]["ba"][t0]["policy"], profile=sc0["profile_retries"],
+                                           force=sc0["force"], pattern=sc0["bins"]["ba"][t0]["pattern"]),
+                    reported=(rig.per_test(results[0]).get(("ba", t0)) or {}).get("finished")))
+    for i in range(nsc):
+        rig.cleanup(f"c07_{i}")
+    return len({json.dumps([sc["force"], sc["profile_retries"], spec["policy"], spec["pattern"], spec["dflt"]])
+                for sc in scenarios for spec in sc["bins"]["ba"].values()
+                if (sc["force"] or spec["policy"] or sc["profile_retries"] or none)["count"] >= 1})
+
+
 # ---------------------------------------------------------------- the check
 
 def check_delay_lists(chk, pols, binary, tag):
@@ -242,6 +399,9 @@ def run(tier, seed):
         return chk.finish(gate, "make -C coq Properties/C07.vo", [])
     r = vlib.rng_for(seed, PROP)
     thorough = tier == "thorough"
+
+    # ---- corr:attempt-loop: the real runner on scripted processes (before the machine is loaded)
+    loop_distinct = check_attempt_loop(chk, binary, vlib.rng_for(seed, PROP + ":rig"), thorough)
 
     # ---- corr:backoff-iter, jitter off: corpus, the grid (exhaustive over it), random policies
     counts = list(range(0, 13)) if thorough else [0, 1, 2, 3, 5, 8, 12]
@@ -402,8 +562,9 @@ def run(tier, seed):
         "the jitter factor 0.5 + u/2 is modelled as any rational in (1/2, 1]; the f64 corner where "
         "0.5 + 2^-54 rounds to exactly 0.5 (probability 2^-53 per draw) is not modelled",
         "std::time::Duration overflow (delay * 2^k beyond u64 seconds) is not modelled (N is unbounded)",
-        "attempt loop, real sleeping and cancellation during the delay are tied by the end-to-end rig, "
-        "not by this check (no hook can drive run_test_instance without real processes)",
+        "the attempt loop is tied by running the real TestRunner (public API, direct spawn, no-op signal "
+        "handler) on scripted shell-script test binaries; cancellation during the delay, signals and the "
+        "accuracy of real sleeping are left to the end-to-end rig",
         "deserialize_retry_policy is exercised through toml::from_str on `retries = ...` (hook H3), "
         "not through the config crate's layered loader",
     ]
@@ -411,18 +572,21 @@ def run(tier, seed):
         gate, "make -C coq Properties/C07.vo && coqc gen/assump_C07.v (Print Assumptions)",
         ["Coq 8.16.1 kernel + vm_compute",
          "hand-written model Model/Backoff.v tied by corr:backoff-iter, corr:backoff-base, "
-         "corr:jitter-range, corr:retry-policy-parse, corr:cli-retries (hook H3)",
+         "corr:jitter-range, corr:retry-policy-parse, corr:cli-retries (hook H3), corr:attempt-loop "
+         "(real TestRunner over scripted processes, props/retry_rig.py)",
          "Python generators/oracles in props/C07.py", "harness/src/backoff.rs"],
         dict(evaluations=sum(v for k, v in chk.counts.items() if k.endswith("_cases")) +
              chk.counts.get("jitter_draws_direct", 0) + chk.counts.get("jitter_draws_iter", 0),
-             distinct_nontrivial=len(distinct),
+             distinct_nontrivial=len(distinct) + loop_distinct,
              rule="policy = (kind, count, delay, max-delay) over counts x a 12-value delay grid 1 ns..1 h x "
                   "max-delay in {none, below delay, = delay*2^j, +-1 ns around it, between two doublings, "
                   "above all} plus seeded random policies; each evaluated for count+2 calls of next(); "
                   "non-trivial = at least 2 retries; distinct by that tuple; plus jitter draws "
-                  "(each checked against the model's interval), parse tables and CLI counts",
+                  "(each checked against the model's interval), parse tables, CLI counts, and attempt-loop "
+                  "runs of the real runner (test = effective policy x pass/fail pattern; non-trivial = at "
+                  "least one retry allowed)",
              traces_validated_against_impl=chk.counts.get("delay_list_cases", 0) +
-             chk.counts.get("base_delay_cases", 0)))
+             chk.counts.get("base_delay_cases", 0) + chk.counts.get("attempt_loop_cases", 0)))
 
 
 def replay(path, seed):
